@@ -259,7 +259,13 @@ def duo_sequences(depth):
             yield seq
 
 
-def run_duo(case, make_monitors):
+class _Shim:
+    """What accessor_oracle needs of a Session: the probe."""
+    def __init__(self, p):
+        self.p = p
+
+
+def run_duo(case, make_monitors, oracle=None, key_pred=None):
     """Every interleaving of {iterate A, iterate B, query A, query B}: each sampler's recorded quantities must refer to ITS OWN history."""
     from .core import Res
 
@@ -298,6 +304,9 @@ def run_duo(case, make_monitors):
                             q.sampler.posterior()
                             q.sampler.results()
                             q.state.compute_logw_and_logz(1.0)
+                    if oracle is not None:  # everything either sampler hands out must refer to ITS OWN current history
+                        for name2, q2 in probes.items():
+                            oracle(_Shim(q2), f"{op} (asked of sampler {name2.upper()})")
         except Exception as e:
             err = e
         finally:
@@ -314,7 +323,7 @@ def run_duo(case, make_monitors):
         for name, q in probes.items():
             seen = set()
             for key, msg, det in q.viol:
-                if key in seen:
+                if key in seen or (key_pred is not None and not key_pred(key)):
                     continue
                 seen.add(key)
                 res.violate("duo:" + key, f"sampler {name.upper()} of two samplers alive in one process: " + msg + f" [interleaving after 2 iterations each: {' '.join(seq)}; cfg={cfg}"
